@@ -628,6 +628,14 @@ func (g *gen) writeStatementJump(b *buffer, n *a.Jump, depth uint32) error {
 	if n.Keyword() == t.IDBreak {
 		keyword = "break"
 	}
+	if n.JumpTarget().Keyword() == t.IDIterate {
+		// An iterate loop is written as several C while loops (one per round),
+		// each advancing the chunk pointers at the end of its (unrolled) body.
+		// A C "continue" would skip that advance (and loop forever) and a C
+		// "break" would only leave the current round. The jump labels aren't
+		// written for iterate loops either.
+		return fmt.Errorf("cannot generate C for %q within an iterate loop", keyword)
+	}
 	if n.JumpTarget() == g.currFunk.activeLoops.Top() {
 		b.printf("%s;\n", keyword)
 	} else if jt, err := g.currFunk.jumpTarget(g.tm, n.JumpTarget()); err != nil {
